@@ -124,6 +124,63 @@ Definition caseB_ok (c : caseB) : bool :=
       end
   end.
 Definition badB := bad_from caseB_ok 0.
+
+(* verification functions: bodies of assignments and returns *)
+Definition caseF := (symtab * tenv * list stmt * nat * list ty * list text)%type.
+Definition vdF (St : symtab) (G : tenv) (body : list stmt) : nat :=
+  match infer_body false St G body with Some _ => 0%nat | None => 2%nat end.
+Definition caseF_ok (c : caseF) : bool :=
+  match c with
+  | (St, G, body, v, tys, cans) =>
+      Nat.eqb (vdF St G body) v
+      && (negb (Nat.eqb v 0)
+          || list_eqb (option_eqb ty_eqb) (body_trace false St G body) (map Some tys))
+      && match cans with
+         | [] => true
+         | _ => list_eqb text_eqb (flat_map canon_trace (map stmt_expr body)) cans
+         end
+  end.
+Definition badF := bad_from caseF_ok 0.
+Definition badFK := bad_from (fun c : caseF => match c with (St, G, body, v, tys, cans) =>
+  forallb keys_distinctb (map stmt_expr body) end) 0.
+(* strict typing of a body; every returned value must be a bool (the functions are declared
+   `-> bool`; the code does not compare the returned type with the declared one) *)
+Fixpoint strict_body (St : symtab) (G : tenv) (body : list stmt) : bool :=
+  match body with
+  | [] => true
+  | SAssign x e :: rest =>
+      match infer true St G [] e with
+      | None => false
+      | Some tv =>
+          match lookup x G with
+          | Some tg => assignable_real St tg tv && strict_body St G rest
+          | None => strict_body St ((x, tv) :: G) rest
+          end
+      end
+  | SReturn e :: rest =>
+      match infer true St G [] e with
+      | Some (TPrim PBool) => strict_body St G rest
+      | _ => false
+      end
+  end.
+Definition badFS := bad_from (fun c : caseF => match c with (St, G, body, v, tys, cans) =>
+  strict_body St G body end) 0.
+Definition badFL := bad_from (fun c : caseF => match c with (St, G, body, v, tys, cans) =>
+  Nat.eqb (vdF St G body) 0 end) 0.
+Definition badFP := bad_from (fun c : caseF => match c with (St, G, body, v, tys, cans) =>
+  forallb guards_on_paths (map stmt_expr body) end) 0.
+Definition caseG := (list (text * value) * list stmt * expect)%type.
+Definition caseG_ok (c : caseG) : bool :=
+  match c with
+  | (locals, body, ex) =>
+      match eval_body (mk_env_l locals) body 200, ex with
+      | Val v, EVal w => value_eqb v w
+      | Val (VObj i _ _), EObj j => Nat.eqb i j
+      | Raise x, ERaise y => exn_eqb x y
+      | _, _ => false
+      end
+  end.
+Definition badG := bad_from caseG_ok 0.
 """
 
 # witnesses and minimised past disagreements; always in the first meta-model
@@ -252,6 +309,37 @@ FN_CORPUS = [
 ]
 
 
+# (parameters, full body source lines): assignments and re-assignments of locals
+FN_BODY_CORPUS = [
+    ([("item", ITEM)], ["text = item.name", "text = item.oc_x", "return len(text) > 0"]),
+    ([("item", ITEM)], ["text = item.oc_x", "text = item.name", "return text is None or len(text) > 0"]),
+    ([("item", ITEM)], ["text = item.oc_x", "text = item.name", "return len(text) > 0"]),
+    ([("item", ITEM)], ["text = item.name", "text = item.name", "return len(text) > 0"]),
+    ([("item", ITEM)], ["w = item.weight", "return w is None or w > 0"]),
+    ([("item", ITEM)], ["w = item.weight", "return w > 0"]),
+    ([("item", ITEM), ("n", g.INT)], ["n = item.weight", "return n > 0"]),
+    ([("item", ITEM), ("n", g.INT)], ["n = 3", "return n > 0"]),
+    ([("item", ITEM), ("opt_n", ("opt", g.INT))], ["opt_n = 3", "return opt_n is None or opt_n > 0"]),
+    ([("item", ITEM), ("opt_n", ("opt", g.INT))], ["opt_n = item.weight", "return opt_n is None or opt_n > 0"]),
+    ([("item", ITEM), ("opt_n", ("opt", g.INT))], ["k = 3", "k = opt_n", "return k > 0"]),
+    ([("item", ITEM), ("opt_n", ("opt", g.INT))], ["k = opt_n", "k = 3", "return k is None or k > 0"]),
+    ([("text", g.STR)], ["n = len(text)", "n = 3", "return n > 0"]),
+    ([("text", g.STR)], ["n = len(text)", "n = len(text) + 1", "return n > 0"]),
+    ([("text", g.STR)], ["n = 3", "n = 'a'", "return n > 0"]),
+    ([("text", g.STR)], ["t = 'a'", "t = 3", "return len(t) > 0"]),
+    ([("item", ITEM), ("other", ITEM)], ["it = item", "it = other", "return it.name != ''"]),
+    ([("item", ITEM), ("opt_item", ("opt", ITEM))], ["it = item", "it = opt_item", "return it.name != ''"]),
+    ([("item", ITEM), ("opt_item", ("opt", ITEM))], ["it = opt_item", "it = item", "return it is None or it.name != ''"]),
+    ([("items", ITEMS), ("numbers", ("list", g.INT))], ["xs = items", "xs = numbers", "return all(x.name != '' for x in xs)"]),
+    ([("text", g.STR)], ["len = text", "return is_ok(len)"]),
+    ([("text", g.STR), ("texts", ("list", g.STR))], ["x = text", "return all(x != '' for x in texts)"]),
+    ([("text", g.STR), ("opt_text", ("opt", g.STR))],
+     ["t = opt_text", "ok = t is None or len(t) > 0", "t = text", "return ok and len(t) > 0"]),
+    ([("text", g.STR)], ["return undefined_local == text"]),
+    ([("text", g.STR)], ["return is_ok(later)", "later = text"]),
+]
+
+
 def verdict_code(rec: Dict[str, Any], translate_failed: bool) -> int:
     if translate_failed:
         return 1
@@ -310,10 +398,10 @@ def instance_of(models, mi, cls, j):
 
 
 def build_models(ctx: lib.Ctx):
-    """-> list of (MetaModel, payload dict, {desc: (cls, src, kind)})"""
+    """-> list of (MetaModel, payload dict, {desc: (cls, src, kind)}, group)"""
     rng = ctx.rng
     n_models = int(os.environ.get("C07_MODELS", "0")) or ctx.n(10, 150)
-    n_holder, n_item, n_fn = 30, 6, 14
+    n_holder, n_item, n_fn = 26, 5, 16
     models = []
     for mi in range(n_models):
         mm = g.MetaModel(rng, mi)
@@ -345,25 +433,41 @@ def build_models(ctx: lib.Ctx):
                     if m is not None:
                         kind, e = m
                 add(cls, e, kind)
-        # verification functions with arguments; the body is `return <expression>`
+        # verification functions with arguments: `return <expression>` or assignments + return
         eg = g.ExprGen(rng, mm, "Holder")
         fn_specs = []
         if mi == 0:
+            oc = next((p for p, t in mm.classes["Item"]["props"] if t == ("opt", g.BRIEF)), None)
             for params, body in FN_CORPUS:
                 fn_specs.append((params, ("raw", body), "corpus"))
+            for params, lines in FN_BODY_CORPUS:
+                if any("oc_x" in l for l in lines) and oc is None:
+                    continue
+                stmts = []
+                for l in lines:
+                    l = l.replace("oc_x", oc or "")
+                    if l.startswith("return "):
+                        stmts.append(("return", ("raw", l[len("return "):])))
+                    else:
+                        x, e = l.split(" = ", 1)
+                        stmts.append(("assign", x, ("raw", e)))
+                fn_specs.append((params, ("body", stmts), "corpus-stmts"))
         for _ in range(n_fn):
             params = eg.random_params()
-            e = eg.function_body(params)
-            kind = "wellformed"
             r = rng.random()
-            if r < 0.25:
-                x = eg.narrow_then_shadow([(("name", n), t) for n, t in params])
-                if x is not None:
-                    kind, e = "narrow_then_shadow", x
-            elif r < 0.6:
-                m = g.mutate(rng, mm, "Holder", e, outer_names=[n for n, _ in params])
-                if m is not None:
-                    kind, e = m
+            if r < 0.45:
+                e, kind = eg.function_stmts(params)
+            else:
+                e = eg.function_body(params)
+                kind = "wellformed"
+                if r < 0.6:
+                    x = eg.narrow_then_shadow([(("name", n), t) for n, t in params])
+                    if x is not None:
+                        kind, e = "narrow_then_shadow", x
+                elif r < 0.85:
+                    m = g.mutate(rng, mm, "Holder", e, outer_names=[n for n, _ in params])
+                    if m is not None:
+                        kind, e = m
             fn_specs.append((params, e, kind))
         ig = g.InstanceGen(rng, mm)
         inst = {"Holder": ig.instances("Holder", 4), "Item": ig.instances("Item", 3)}
@@ -373,20 +477,44 @@ def build_models(ctx: lib.Ctx):
             mm.functions[fname] = (params, e, kind)
             fn_args[fname] = ig.arg_tuples(params, 6)
         models.append((mm, {"source": mm.source(), "instances": inst, "fn_args": fn_args,
-                            "overrides": g.OVERRIDES}, info))
-    # wrong arity / unknown function: rejected by _translate for the whole model, hence
-    # one invariant per model
-    for k, s in enumerate(["len(self.s0, self.s0) > 0", "len() > 0", "is_ok() or self.b0",
-                           "both_pos(self.i0)", "twice(1, 2) > 0", "nosuch(self.i0)",
-                           "abs(self.i0) > 0", "all(x(1) for x in self.li0)",
-                           "all(len(x) > 0 for x in self.items) or len(self.i0, 1) > 0"]
-                          [: ctx.n(9, 9)]):
-        mm = g.MetaModel(rng, 10000 + k)
+                            "overrides": g.OVERRIDES}, info, None))
+
+    # ---- calls with a wrong number of arguments at every nesting position. The call check
+    # of _translate rejects the whole meta-model, hence one invariant per meta-model; all of
+    # them share the classes and instances (one Coq unit).
+    base = g.MetaModel(rng, 10000)
+    ig = g.InstanceGen(rng, base)
+    inst = {"Holder": ig.instances("Holder", 3)}
+    ok_info = {}
+    seen = set()
+    for k in range(ctx.n(16, 60)):
+        s = g.arity_invariant(rng, bad=False)
+        if s in seen:
+            continue
+        seen.add(s)
+        desc = f"inv arity-ok {k}"
+        base.invariants["Holder"].append((desc, ("raw", s)))
+        ok_info[desc] = ("Holder", s, "arity-ok")
+    models.append((base, {"source": base.source(), "instances": inst,
+                          "overrides": g.OVERRIDES}, ok_info, "arity"))
+    fixed = ["len(self.s0, self.s0) > 0", "len() > 0", "is_ok() or self.b0",
+             "both_pos(self.i0)", "twice(1, 2) > 0", "nosuch(self.i0)", "absolute(self.i0) > 0",
+             "all(x(1) for x in self.li0)", "len(echo(self.s0, self.s0)) > 0",
+             "len(perhaps()) > 0", "len(self.items) > twice() or self.b0",
+             "all(len(x.name) > 0 for x in self.items) or len(self.i0, 1) > 0"]
+    bad_srcs = list(fixed)
+    while len(bad_srcs) < len(fixed) + ctx.n(26, 150):
+        s = g.arity_invariant(rng, bad=True)
+        if s not in bad_srcs:
+            bad_srcs.append(s)
+    for k, s in enumerate(bad_srcs):
+        mm = g.MetaModel.__new__(g.MetaModel)
+        mm.__dict__.update({"idx": 10001 + k, "classes": base.classes, "functions": {},
+                            "invariants": {c: [] for c in base.classes}})
         desc = f"inv arity {k}"
         mm.invariants["Holder"].append((desc, ("raw", s)))
-        ig = g.InstanceGen(rng, mm)
-        models.append((mm, {"source": mm.source(), "instances": {}, "overrides": g.OVERRIDES},
-                       {desc: ("Holder", s, "arity")}))
+        models.append((mm, {"source": mm.source(), "instances": inst, "overrides": g.OVERRIDES},
+                       {desc: ("Holder", s, "arity")}, "arity"))
     return models
 
 
@@ -395,20 +523,21 @@ def streams(ctx: lib.Ctx) -> None:
     results: List[Dict[str, Any]] = []
     B = 40
     for k in range(0, len(models), B):
-        results += lib.impl_call("typeinf.py", {"models": [p for _, p, _ in models[k:k + B]]},
+        results += lib.impl_call("typeinf.py", {"models": [m[1] for m in models[k:k + B]]},
                                  timeout=3000)
 
-    units: List[str] = []
-    unit_meta: List[Dict[str, Any]] = []      # per unit: global indices of its A and B cases
-    casesA: List[str] = []
-    metaA: List[Dict[str, Any]] = []
-    casesB: List[str] = []
-    metaB: List[Dict[str, Any]] = []
-    headers: List[str] = []
+    # units: one Coq file per group of meta-models that share classes and instances
+    unit_of: Dict[Any, int] = {}
+    unit_hdr: List[List[str]] = []
+    unit_idx: List[Dict[str, List[int]]] = []
+    unit_inst: List[Dict[str, List[str]]] = []
+    cases: Dict[str, List[str]] = {"A": [], "B": [], "F": [], "G": []}
+    meta: Dict[str, List[Dict[str, Any]]] = {"A": [], "B": [], "F": [], "G": []}
     n_unmodelled_results = 0
     verdict_hist = {0: 0, 1: 0, 2: 0, 3: 0}
     kind_hist: Dict[str, int] = {}
-    for mi, ((mm, payload, info), res) in enumerate(zip(models, results)):
+    model_unit: List[int] = []
+    for mi, ((mm, payload, info, group), res) in enumerate(zip(models, results)):
         if "parse_error" in res or "exec_error" in res:
             raise lib.HarnessError(f"generated meta-model {mi} is not usable: "
                                    f"{res.get('parse_error') or res.get('exec_error')}\n"
@@ -418,15 +547,23 @@ def streams(ctx: lib.Ctx) -> None:
         if translate_failed and not arity_model:
             raise lib.HarnessError(f"generated meta-model {mi} rejected by translate: "
                                    f"{res.get('translate_error') or res.get('translate_exception')}")
-        header = [HEADER, f"Definition st : symtab := {mm.coq_symtab()}."]
-        inst_names: Dict[str, List[str]] = {}
-        for cls, insts in payload["instances"].items():
-            inst_names[cls] = []
-            for j, inst in enumerate(insts):
-                nm = f"inst_{cls}_{j}"
-                header.append(f"Definition {nm} : value := {g.cvalue(inst)}.")
-                inst_names[cls].append(nm)
-        ia, ib = [], []
+        key = group if group is not None else ("model", mi)
+        if key not in unit_of:
+            unit_of[key] = len(unit_hdr)
+            header = [HEADER, f"Definition st : symtab := {mm.coq_symtab()}."]
+            names: Dict[str, List[str]] = {}
+            for cls, insts in payload["instances"].items():
+                names[cls] = []
+                for j, inst in enumerate(insts):
+                    nm = f"inst_{cls}_{j}"
+                    header.append(f"Definition {nm} : value := {g.cvalue(inst)}.")
+                    names[cls].append(nm)
+            unit_hdr.append(header)
+            unit_idx.append({"A": [], "B": [], "F": [], "G": []})
+            unit_inst.append(names)
+        u = unit_of[key]
+        model_unit.append(u)
+        header, idx, inst_names = unit_hdr[u], unit_idx[u], unit_inst[u]
         for rec in res["invariants"]:
             if rec["desc"] not in info:
                 continue  # fixed invariants of the prelude
@@ -441,30 +578,30 @@ def streams(ctx: lib.Ctx) -> None:
             tys = g.clist(g.ctype_json(t) for t in rec.get("types", [])) if v == 0 else "[]"
             cans = g.clist(g.ctext(c) for c in rec.get("canon", []))
             tree = g.ctree(rec["tree"])
-            ia.append(len(casesA))
-            casesA.append(f"(st, G_of {g.ctext(cls)}, false, {tree}, {v}%nat, {tys}, {cans})")
-            metaA.append({"model": mi, "cls": cls, "source": source, "kind": kind,
-                          "verdict": rec.get("verdict", "translate-error" if translate_failed
-                                             else "?"),
-                          "tree": rec["tree"], "results": rec.get("results"),
-                          "messages": rec.get("messages") or res.get("translate_error")})
+            idx["A"].append(len(cases["A"]))
+            cases["A"].append(f"(st, G_of {g.ctext(cls)}, false, {tree}, {v}%nat, {tys}, {cans})")
+            meta["A"].append({"model": mi, "cls": cls, "source": source, "kind": kind,
+                              "verdict": rec.get("verdict", "translate-error" if translate_failed
+                                                 else "?"),
+                              "tree": rec["tree"], "results": rec.get("results"),
+                              "messages": rec.get("messages") or res.get("translate_error")})
             for j, r in enumerate(rec.get("results") or []):
                 ex = None if source in NO_EVAL else expect_term(r)
                 if ex is None:
                     n_unmodelled_results += 1
                     continue
-                ib.append(len(casesB))
-                casesB.append(f"([(s2l \"self\", {inst_names[cls][j]})], {tree}, {ex})")
-                metaB.append({"model": mi, "cls": cls, "source": source, "instance": j,
-                              "observed": r})
+                idx["B"].append(len(cases["B"]))
+                cases["B"].append(f"([(s2l \"self\", {inst_names[cls][j]})], {tree}, {ex})")
+                meta["B"].append({"model": mi, "cls": cls, "source": source, "instance": j,
+                                  "observed": r})
         for rec in res.get("functions", []):
             fname = rec["name"]
             if fname not in mm.functions:
                 continue
             params, spec, kind = mm.functions[fname]
             source = f"def {fname}(" + ", ".join(f"{n}: {g.T_src(t)}" for n, t in params) \
-                     + "): return " + g.src(spec)
-            if "tree" not in rec:
+                     + "):\n" + g.body_src(spec)
+            if "body" not in rec:
                 raise lib.HarnessError(f"unmodelled function body: {rec.get('tree_error')} in {source}")
             if rec.get("verdict", "").startswith("not-transpilable"):
                 raise lib.HarnessError(f"generated function is not transpilable: {source}")
@@ -473,14 +610,14 @@ def streams(ctx: lib.Ctx) -> None:
             kind_hist["fn:" + kind] = kind_hist.get("fn:" + kind, 0) + 1
             tys = g.clist(g.ctype_json(t) for t in rec.get("types", [])) if v == 0 else "[]"
             cans = g.clist(g.ctext(c) for c in rec.get("canon", []))
-            tree = g.ctree(rec["tree"])
+            body = g.cstmts(rec["body"])
             G = "(" + g.clist(f"({g.ctext(n)}, {g.ctype_json(g.T_json(t))})" for n, t in params) \
                 + " ++ base_tenv)"
-            ia.append(len(casesA))
-            casesA.append(f"(st, {G}, true, {tree}, {v}%nat, {tys}, {cans})")
-            metaA.append({"model": mi, "cls": "fn:" + fname, "source": source, "kind": kind,
-                          "verdict": rec.get("verdict", "?"), "tree": rec["tree"],
-                          "results": rec.get("results"), "messages": rec.get("messages")})
+            idx["F"].append(len(cases["F"]))
+            cases["F"].append(f"(st, {G}, {body}, {v}%nat, {tys}, {cans})")
+            meta["F"].append({"model": mi, "cls": "fn:" + fname, "source": source, "kind": kind,
+                              "verdict": rec.get("verdict", "?"), "tree": rec["body"],
+                              "results": rec.get("results"), "messages": rec.get("messages")})
             for j, r in enumerate(rec.get("results") or []):
                 ex = expect_term(r)
                 if ex is None:
@@ -492,57 +629,72 @@ def streams(ctx: lib.Ctx) -> None:
                     nm = f"arg_{fname}_{j}_{n}"
                     header.append(f"Definition {nm} : value := {g.cvalue(val)}.")
                     names.append(f"({g.ctext(n)}, {nm})")
-                ib.append(len(casesB))
-                casesB.append(f"({g.clist(names)}, {tree}, {ex})")
-                metaB.append({"model": mi, "cls": "fn:" + fname, "source": source, "instance": j,
-                              "observed": r})
+                idx["G"].append(len(cases["G"]))
+                cases["G"].append(f"({g.clist(names)}, {body}, {ex})")
+                meta["G"].append({"model": mi, "cls": "fn:" + fname, "source": source,
+                                  "instance": j, "observed": r})
+
+    EVALS = [("badA", "A"), ("badK", "A"), ("badS", "A"), ("badL", "A"), ("badB", "B"),
+             ("badP", "A"), ("badF", "F"), ("badFK", "F"), ("badFS", "F"), ("badFL", "F"),
+             ("badG", "G"), ("badFP", "F")]
+    units, headers = [], []
+    for header, idx in zip(unit_hdr, unit_idx):
         hdr = "\n".join(header) + "\n"
         headers.append(hdr)
-        units.append(hdr
-                     + "Definition casesA : list caseA := " + g.clist(casesA[i] for i in ia) + ".\n"
-                     + "Definition casesB : list caseB := " + g.clist(casesB[i] for i in ib) + ".\n"
-                     + "Eval vm_compute in (badA casesA).\nEval vm_compute in (badK casesA).\n"
-                     + "Eval vm_compute in (badS casesA).\nEval vm_compute in (badL casesA).\n"
-                     + "Eval vm_compute in (badB casesB).\nEval vm_compute in (badP casesA).\n")
-        unit_meta.append({"A": ia, "B": ib})
-
+        text = hdr
+        for k in "ABFG":
+            text += (f"Definition cases{k} : list case{k} := "
+                     + g.clist(cases[k][i] for i in idx[k]) + ".\n")
+        for fn, k in EVALS:
+            text += f"Eval vm_compute in ({fn} cases{k}).\n"
+        units.append(text)
     outs = g.run_units(ctx.work, "cases", units, ncpu=lib.NCPU)
-    bad, badk, not_strict, not_lax, badb = [], [], set(), set(), []
-    n_not_paths = 0
-    for um, o in zip(unit_meta, outs):
-        if len(o) == 6:
-            n_not_paths += len(o.pop())
-        if len(o) != 5:
+    bad: Dict[str, List[int]] = {fn: [] for fn, _ in EVALS}
+    for idx, o in zip(unit_idx, outs):
+        if len(o) != len(EVALS):
             raise lib.HarnessError(f"cannot parse the result of a cases file: {o}")
-        bad += [um["A"][i] for i in o[0]]
-        badk += [um["A"][i] for i in o[1]]
-        not_strict |= {um["A"][i] for i in o[2]}
-        not_lax |= {um["A"][i] for i in o[3]}
-        badb += [um["B"][i] for i in o[4]]
+        for (fn, k), lst in zip(EVALS, o):
+            bad[fn] += [idx[k][i] for i in lst]
 
-    # ---- correspondence A: verdict, type map, canonical keys
-    for i in bad[:12]:
-        m = metaA[i]
-        model_out = lib.coq_eval(ctx.work, "showA", headers[m["model"]],
-                                 f"let c := {casesA[i]} in match c with (St, G, isfn, e, v, t, k) => "
+    def hdr_of(m):
+        return headers[model_unit[m["model"]]]
+
+    # ---- correspondence: verdict, type map, canonical keys
+    for i in bad["badA"][:8]:
+        m = meta["A"][i]
+        model_out = lib.coq_eval(ctx.work, "showA", hdr_of(m),
+                                 f"let c := {cases['A'][i]} in match c with (St, G, isfn, e, v, t, k) => "
                                  f"(vd St G isfn e, type_trace false St G [] e, canon_trace e) end")
         ctx.corr_break("typeinf-verdict-types-keys",
                        {"source": m["source"], "class": m["cls"], "kind": m["kind"],
                         "meta_model": models[m["model"]][1]["source"]},
                        model_out[-1500:], {"verdict": m["verdict"], "messages": m["messages"]})
+    for i in bad["badF"][:8]:
+        m = meta["F"][i]
+        model_out = lib.coq_eval(ctx.work, "showF", hdr_of(m),
+                                 f"let c := {cases['F'][i]} in match c with (St, G, b, v, t, k) => "
+                                 f"(vdF St G b, body_trace false St G b) end")
+        ctx.corr_break("typeinf-verification-function-bodies",
+                       {"source": m["source"], "kind": m["kind"],
+                        "meta_model": models[m["model"]][1]["source"]},
+                       model_out[-1500:], {"verdict": m["verdict"], "messages": m["messages"]})
     # ---- side condition of the main theorem on every case
-    for i in badk[:5]:
-        ctx.proof_break("keys_distinct side condition",
-                        f"two distinct sub-expressions share a canonical key: {metaA[i]['source']}")
-    # ---- correspondence B: evaluation
-    for i in badb[:12]:
-        m = metaB[i]
-        model_out = lib.coq_eval(ctx.work, "showB", headers[m["model"]],
-                                 f"let c := {casesB[i]} in match c with (s, e, x) => "
-                                 f"eval (mk_env_l s) e 200 end")
-        ctx.corr_break("pyeval", {"source": m["source"], "class": m["cls"],
-                                  "instance": instance_of(models, m["model"], m["cls"], m["instance"])},
-                       model_out[-800:], m["observed"])
+    for k, fn in (("A", "badK"), ("F", "badFK")):
+        for i in bad[fn][:5]:
+            ctx.proof_break("keys_distinct side condition",
+                            "the operand of a None-test shares its canonical key with another "
+                            f"sub-expression: {meta[k][i]['source']}")
+    # ---- correspondence: evaluation
+    for k, fn, ev in (("B", "badB", "eval (mk_env_l s) e 200"),
+                      ("G", "badG", "eval_body (mk_env_l s) e 200")):
+        for i in bad[fn][:8]:
+            m = meta[k][i]
+            model_out = lib.coq_eval(ctx.work, "showB", hdr_of(m),
+                                     f"let c := {cases[k][i]} in match c with (s, e, x) => {ev} end")
+            ctx.corr_break("pyeval", {"source": m["source"], "class": m["cls"],
+                                      "instance": instance_of(models, m["model"], m["cls"],
+                                                              m["instance"])},
+                           model_out[-800:], m["observed"])
 
     if os.environ.get("C07_DEBUG"):
         with open(os.environ["C07_DEBUG"], "w") as f:
@@ -552,36 +704,38 @@ def streams(ctx: lib.Ctx) -> None:
     failing = []
     n_runs = 0
     n_index = 0
-    for i, m in enumerate(metaA):
-        if m["verdict"] != "ok":
-            continue
-        for j, r in enumerate(m["results"] or []):
-            n_runs += 1
-            if "val" in r and r["val"]["k"] == "bool":
+    for k, ns_fn, nl_fn in (("A", "badS", "badL"), ("F", "badFS", "badFL")):
+        not_strict, not_lax = set(bad[ns_fn]), set(bad[nl_fn])
+        for i, m in enumerate(meta[k]):
+            if m["verdict"] != "ok":
                 continue
-            if r.get("exc") == "IndexError":
-                n_index += 1
-                continue
-            failing.append((i, j, r))
-            break
-    fail_idx = sorted({i for i, _, _ in failing})
+            for j, r in enumerate(m["results"] or []):
+                n_runs += 1
+                if "val" in r and r["val"]["k"] == "bool":
+                    continue
+                if r.get("exc") == "IndexError":
+                    n_index += 1
+                    continue
+                failing.append((m, j, r, i in not_lax, i in not_strict))
+                break
     seen_new = set()
-    failing.sort(key=lambda t: len(metaA[t[0]]["source"]))
-    for i, j, r in failing:
-        m = metaA[i]
-        pos = i
+    failing.sort(key=lambda t: len(t[0]["source"]))
+    n_excluded = 0
+    for m, j, r, is_not_lax, is_not_strict in failing:
         inst = instance_of(models, m["model"], m["cls"], j)
-        observed = r
-        how = ("load the meta-model, check that type inference accepts the invariant, then "
-               "evaluate the lambda on the instance (harness/impl/typeinf.py does exactly this)")
-        inp = {"invariant": m["source"], "class": m["cls"], "instance": inst,
+        how = ("load the meta-model, check that the front end (call check of translate + type "
+               "inference) accepts it, then evaluate the lambda / function of the source text "
+               "on the instance / arguments (harness/impl/typeinf.py does exactly this)")
+        inp = {"invariant_or_function": m["source"], "class": m["cls"],
+               "instance_or_arguments": inst,
                "meta_model": models[m["model"]][1]["source"]}
-        if pos in not_lax:
-            what = ("accepted by the front end although the (fixed) inference rejects it; "
-                    "fails at run time")
+        if is_not_lax:
+            what = ("accepted by the front end although the model of the (fixed) front end "
+                    "rejects it; fails at run time")
             key = ("none-unsafe:" if "NoneType" in r.get("msg", "") or
                    r.get("val", {}).get("k") == "none" else "accepted-unsafe:") + m["source"]
-        elif pos in not_strict:
+        elif is_not_strict:
+            n_excluded += 1
             what = ("operand/argument types are not checked by the type inference: accepted "
                     "invariant raises TypeError/AttributeError or yields a non-boolean")
             key = KNOWN_KEY
@@ -596,21 +750,27 @@ def streams(ctx: lib.Ctx) -> None:
             continue
         else:
             seen_new.add(KNOWN_KEY)
-        ctx.impl_failure(key, what, inp, observed, "oracle", how)
+        ctx.impl_failure(key, what, inp, r, "oracle", how)
 
-    ctx.count("typeinf-verdict-types-keys", len(casesA),
-              nontrivial_keys=[m["source"] for m in metaA if nontrivial(m["tree"])],
-              validated=len(casesA), verdicts={"accepted": verdict_hist[0],
-                                               "rejected_by_translate": verdict_hist[1],
-                                               "failed_to_infer": verdict_hist[2],
-                                               "exception": verdict_hist[3]},
-              kinds=kind_hist, meta_models=len(models))
-    ctx.count("keys-distinct-side-condition", len(casesA),
-              none_tests_all_on_access_paths=len(casesA) - n_not_paths,
+    nA, nF = len(cases["A"]), len(cases["F"])
+    ctx.count("typeinf-verdict-types-keys", nA + nF,
+              nontrivial_keys=[m["source"] for m in meta["A"] + meta["F"]
+                               if nontrivial(m["tree"])],
+              validated=nA + nF, verdicts={"accepted": verdict_hist[0],
+                                           "rejected_by_translate": verdict_hist[1],
+                                           "failed_to_infer": verdict_hist[2],
+                                           "exception": verdict_hist[3]},
+              kinds=kind_hist, meta_models=len(models), invariants=nA,
+              verification_functions=nF)
+    n_not_paths = len(bad["badP"]) + len(bad["badFP"])
+    ctx.count("keys-distinct-side-condition", nA + nF,
+              none_tests_all_on_access_paths=nA + nF - n_not_paths,
               none_tests_on_other_expressions=n_not_paths)
-    ctx.count("pyeval", len(casesB), validated=len(casesB),
+    ctx.count("pyeval", len(cases["B"]) + len(cases["G"]),
+              validated=len(cases["B"]) + len(cases["G"]),
               results_outside_model=n_unmodelled_results)
     ctx.count("oracle", n_runs, index_errors=n_index,
-              failing_invariants=len(fail_idx), excluded_by_strict_typing=len([i for i in fail_idx if i in not_strict]))
-    for m in metaA[:4] + metaA[60:64]:
+              failing_invariants_or_functions=len(failing),
+              excluded_by_strict_typing=n_excluded)
+    for m in meta["A"][:4] + meta["A"][60:62] + meta["F"][:2]:
         ctx.sample({"invariant": m["source"], "kind": m["kind"], "verdict": m["verdict"]})
